@@ -489,14 +489,68 @@ def _in_tolerant_try(node, fn):
 
 
 def r6_torn_tail(ctx):
-    ctx.rule("C02.R6", "restore path tolerates a torn last record: (a) raw log lines are JSON-decoded under a handler "
-                       "that tolerates ValueError, (b) the .gz read tolerates EOFError at the tail, (c) an append to an "
-                       "existing file starts on a fresh line")
-    consumers = [(RES, "TransactionDecode.filter")]
+    ctx.rule("C02.R6", "a partly written last record never makes the file unusable: before Experiment.run restores from (and appends to) an existing result file it cuts the "
+                       "partial tail off -- a call of the repair helper dominates Result.from_file and the construction of the sink on the CFG of run(); the helper keeps "
+                       "everything up to the last line end (plain) / the end of the last complete gzip member (.gz) and truncates the rest.  Readers that are used WITHOUT "
+                       "that repair must tolerate the torn tail themselves (a: JSON decoding, b: the .gz read)")
+    from ..cfg import CFG
+    run = ctx.fn(EXP, "Experiment.run")
+    g = CFG(run)
+    dom = g.dominators()
+
+    def nodes_calling(name):
+        return [nd.id for nd in g.nodes if nd.ast is not None and nd.kind in ("stmt", "test") and any(isinstance(c, ast.Call) and (call_name(c) or "").split(".")[-1] == name for c in ast.walk(nd.ast))]
+    repair_name = None
+    for (rel, qual), f_ in ctx.model.functions.items():
+        if rel == EXP and any(isinstance(c, ast.Call) and call_tail(c) == "truncate" for c in ast.walk(f_)):
+            repair_name = qual.split(".")[-1]
+            repair_fn = f_
+    repairs = nodes_calling(repair_name) if repair_name else []
+    restores = nodes_calling("from_file")
+    sinks_ = nodes_calling("DiskSink")
+    ctx.floor("C02.R6", "restore / sink construction sites in Experiment.run", len(restores) + len(sinks_), 2)
+    # must-pass: every path to the restore / the sink construction has either run the repair or left the repair's own guard by its false edge (no file: nothing to cut)
+    from ..cfg import forward
+    guard_tests = set()
+    for r in repairs:
+        for t, pol in guards_of(g.nodes[r].ast, run):
+            guard_tests |= {nd.id for nd in g.nodes if nd.kind == "test" and nd.ast is t}
+
+    def transfer(node, st, label):
+        if label in ("exc", "abandon"):
+            return st
+        if node.id in repairs:
+            return True
+        if node.id in guard_tests and label == "false":
+            return True
+        return st
+    IN = forward(g, False, transfer, lambda a, b: a and b)
+    repaired = bool(repairs) and all(IN.get(x, False) for x in restores + sinks_)
+    for x in restores + sinks_:
+        ctx.ob("C02.R6", EXP, "Experiment.run", g.nodes[x].ast, "the partial tail of an existing result file is cut off before the file is restored from / appended to", bool(repairs) and bool(IN.get(x, False)),
+               stmt="repair precedes: " + norm_stmt(g.nodes[x].ast)[:70])
+    for r in repairs:
+        # the repair is attempted for every existing file: its guard is the existence test alone
+        gs = [unparse(t) for t, pol in guards_of(g.nodes[r].ast, run) if pol]
+        ctx.ob("C02.R6", EXP, "Experiment.run", g.nodes[r].ast, "the repair runs whenever the result file exists (plain and .gz alike)", bool(gs) and all("exists" in t or t == "result_file" for t in gs), detail={"guards": gs})
+    if repair_name:
+        f_ = repair_fn
+        P = f_.args.args[0].arg
+        truncs = [c for c in ast.walk(f_) if isinstance(c, ast.Call) and call_tail(c) == "truncate"]
+        KEEP = unparse(truncs[0].args[0]) if truncs and truncs[0].args else None
+        keeps = [x for x in ast.walk(f_) if isinstance(x, ast.Assign) and any(KEEP in [unparse(e) for e in (t.elts if isinstance(t, ast.Tuple) else [t])] for t in x.targets)]
+        plain = any("rfind(b'\\n')" in unparse(x) or 'rfind(b"\\n")' in unparse(x) for x in ast.walk(f_) if isinstance(x, ast.Assign)) and any("+ 1" in unparse(x.value) for x in keeps)
+        gz = any(isinstance(t, ast.Attribute) and t.attr == "eof" for x in ast.walk(f_) if isinstance(x, ast.If) for t in ast.walk(x.test)) and any(isinstance(a_, ast.Attribute) and a_.attr == "unused_data" for a_ in ast.walk(f_))
+        gz_branch = any(isinstance(x, ast.If) and ".gz" in unparse(x.test) and P in unparse(x.test) for x in ast.walk(f_))
+        mode = [c for c in ast.walk(f_) if isinstance(c, ast.Call) and call_name(c) == "open" and len(c.args) >= 2 and const_str(c.args[1]) in ("rb+", "r+b")]
+        ctx.ob("C02.R6", EXP, repair_name, f_, "plain files are kept up to and including their last line end", plain, stmt="repair: last line end")
+        ctx.ob("C02.R6", EXP, repair_name, f_, ".gz files are kept up to the end of their last complete member (member ends found with a decompressobj's eof / unused_data)", gz and gz_branch, stmt="repair: last complete member")
+        ctx.ob("C02.R6", EXP, repair_name, truncs[0] if truncs else f_, "the rest is truncated in place (binary read/write open, no rewrite of the kept part)", bool(truncs) and bool(mode), stmt="repair: truncate")
+    consumers = [(RES, "TransactionDecode.filter", repaired)]
     if ctx.thorough:
-        consumers.append((ENVS, "Environments.from_result"))
+        consumers.append((ENVS, "Environments.from_result", False))
     n_sites = 0
-    for rel, qual in consumers:
+    for rel, qual, covered in consumers:
         fn = ctx.fn(rel, qual)
         for n in walk_shallow(fn):
             site = None
@@ -507,9 +561,8 @@ def r6_torn_tail(ctx):
             if site is None:
                 continue
             n_sites += 1
-            ok = _in_tolerant_try(site, fn)
-            # lazily evaluated map(...) inside a generator is consumed by `yield from` at the same place
-            ctx.ob("C02.R6a", rel, qual, site, "decoding of a raw log line tolerates a torn (undecodable) last line", ok)
+            ok = _in_tolerant_try(site, fn) or covered
+            ctx.ob("C02.R6a", rel, qual, site, "decoding of a raw log line tolerates a torn (undecodable) last line, or only ever sees files whose torn tail was cut off first", ok)
     ctx.floor("C02.R6a", "JSON decode sites on the restore path", n_sites, 2)
     ctx.rules["C02.R6a"] = "see C02.R6 (a)"
     rd = ctx.fn(SOURCES, "DiskSource.read")
@@ -517,26 +570,17 @@ def r6_torn_tail(ctx):
     ctx.floor("C02.R6b", "readline sites in DiskSource.read", len(reads), 1)
     ctx.rules["C02.R6b"] = "see C02.R6 (b)"
     for r in reads:
-        ok = False
+        ok = repaired
         for comp, branch in control_ancestors(r, rd):
             if isinstance(comp, ast.Try) and branch == "body":
                 for h in comp.handlers:
                     t = unparse(h.type) if h.type is not None else "*"
                     if any(x in t for x in ("EOFError", "BadGzipFile", "OSError", "Exception", "*")):
                         ok = True
-        ctx.ob("C02.R6b", SOURCES, "DiskSource.read", r, "reading a truncated .gz member does not abort the restore", ok)
-    # (c) first append is on a fresh line: DiskSink.__enter__/write or Experiment.run repairs a missing terminator
+        ctx.ob("C02.R6b", SOURCES, "DiskSource.read", r, "reading a truncated .gz member does not abort the restore (tolerated, or cut off before the restore)", ok)
+    ctx.rules["C02.R6c"] = "see C02.R6"
     enter = ctx.fn(SINKS, "DiskSink.__enter__")
-    wr = ctx.fn(SINKS, "DiskSink.write")
-    run = ctx.fn(EXP, "Experiment.run")
-    repaired = False
-    for fn in (enter, wr, run):
-        for n in walk_shallow(fn):
-            if isinstance(n, ast.Call) and isinstance(n.func, ast.Attribute) and n.func.attr in ("seek", "truncate", "endswith"):
-                repaired = True
-    ctx.rules["C02.R6c"] = "see C02.R6 (c)"
-    ctx.ob("C02.R6c", SINKS, "DiskSink.__enter__", enter, "an append after a torn tail starts on a fresh line "
-           "(no seek/truncate/terminator check exists before the first appended record)", repaired, stmt="append-after-torn-tail")
+    ctx.ob("C02.R6c", SINKS, "DiskSink.__enter__", enter, "an append never lands behind a torn tail (the tail is cut off before the sink of a resumed run is built)", repaired, stmt="append-after-torn-tail")
 
 
 # ------------------------------------------------------------------------------------------ controls
@@ -594,6 +638,8 @@ def r9_sink_context_owner(ctx, rule="C02.R9"):
 
 
 CONTROLS = [
+    ("the torn tail is left in place", EXP, M.delete_stmt("Experiment.run", M.text_has("_drop_partial_record(result_file)")), "C02.R6"),
+    ("plain repair keeps the bytes before the last line end only", EXP, M.replace_expr("_drop_partial_record", "start + end + 1 if end >= 0 else 0", "start + end if end >= 0 else 0"), "C02.R6"),
     ("worker store built from explicit keys", "coba/multiprocessing.py", M.replace_expr("CobaMultiprocessor.filter",
         "{'openml_semaphore': spawn_context.Semaphore(3), **CobaContext.store}", "{'openml_semaphore': spawn_context.Semaphore(3), 'experiment_seed': CobaContext.store.get('seed')}"), "C02.R11"),
     ("restored experiment description is never empty", RES, M.replace_stmt("TransactionResult.filter", M.simple_has("exp_dict = {}"), "exp_dict = {'version': 4}"), "C02.R5"),
